@@ -254,9 +254,15 @@ def coq_make(targets=None, timeout=3000):
         r = sh(["coq_makefile", "-f", "_CoqProject", "-o", "Makefile"], cwd=COQ)
         if r.returncode != 0:
             raise TieBroken("coq_makefile failed: " + r.stdout)
-    cmd = ["make", "-j16"] + (targets or [])
+    cmd = ["make", "-k", "-j16"] + (targets or [])
     r = sh(cmd, cwd=COQ, timeout=timeout)
     return r
+
+
+def coq_up_to_date(vo):
+    """after coq_make: is this .vo (hence everything it depends on) built from the current sources?"""
+    r = sh(["make", "-q", vo], cwd=COQ, timeout=600)
+    return r.returncode == 0 and os.path.exists(os.path.join(COQ, vo))
 
 
 def coq_eval(name, body, timeout=1200):
@@ -874,6 +880,51 @@ def k5(cases, tag):
 
     res = par(run, list(enumerate(shards)))
     return len(cases), [(n, code) for r in res for n, code in r]
+
+
+def k5_reads(cases, tag):
+    """on the K5 cases: does the text meet the premise of the text theorems (TextTie.reads_as:
+    it lexes as the token stream of ds with white space and comments between the tokens)?
+    Returns (number of cases, indices where it does not)"""
+    cases = list(cases)
+    shards = shard(list(enumerate(cases)), 16)
+
+    def run(sh_i):
+        si, items = sh_i
+        body = ["From XdrModel Require Import Check Walk Grammar Source.", "From XdrProofs Require Import TextTie.",
+                "Open Scope string_scope.", "Open Scope list_scope.",
+                "Definition cases : list (N * string * list sdecl) := ["]
+        body.append(";\n".join("(%d%%N, %s, %s)" % (n, coq_text(o["text"]), ds) for n, (o, ds) in items))
+        body.append("].")
+        body.append("Eval vm_compute in (flat_map (fun c => match c with (i, text, ds) => "
+                    "if reads_as ds text then [] else [i] end) cases).")
+        return parse_nums(coq_eval("k5r_%s_%d" % (tag, si), "\n".join(body)))
+
+    res = par(run, list(enumerate(shards)))
+    return len(cases), [n for r in res for n in r]
+
+
+def layout_pairs(pairs, tag):
+    """pairs: (text1, ds1 term, text2, ds2 term).  The premise of C11_layout_independent_full on
+    two layouts of one specification: both read as their declaration lists, which agree up to the
+    spelling of basic types.  Returns (number of pairs, indices where the premise does not hold)"""
+    pairs = list(pairs)
+    shards = shard(list(enumerate(pairs)), 16)
+
+    def run(sh_i):
+        si, items = sh_i
+        body = ["From XdrModel Require Import Check Walk Grammar Source.", "From XdrProofs Require Import TextTie.",
+                "Open Scope string_scope.", "Open Scope list_scope.",
+                "Definition cases : list (N * (string * list sdecl) * (string * list sdecl)) := ["]
+        body.append(";\n".join("(%d%%N, (%s, %s), (%s, %s))" % (n, coq_text(t1), d1, coq_text(t2), d2) for n, (t1, d1, t2, d2) in items))
+        body.append("].")
+        body.append("Eval vm_compute in (flat_map (fun c => match c with (i, (t1, d1), (t2, d2)) => "
+                    "if (reads_as d1 t1 && reads_as d2 t2 && same_declarations d1 d2 && forallb decl_okb d1 && forallb decl_okb d2)%bool "
+                    "then [] else [i] end) cases).")
+        return parse_nums(coq_eval("lp_%s_%d" % (tag, si), "\n".join(body)))
+
+    res = par(run, list(enumerate(shards)))
+    return len(pairs), [n for r in res for n in r]
 
 
 def k1_show(text, tag="show"):
